@@ -266,8 +266,8 @@ CASES = [
     ("m-c18-graal-magics-filter-object", "C18", "fire", "xdis/magics.py", "GRAAL3_MAGICS = (21150, 21280)", "GRAAL3_MAGICS = filter(None, (21150, 21280))", "one-shot-iterator"),
     ("m-c18-opnames-alias-edited", "C18", "fire", "xdis/bytecode.py", "        output = StringIO()\n        if self.opc.version_tuple > (2, 0):", "        output = StringIO()\n        self.opnames[0] = \"STOP_CODE\"\n        if self.opc.version_tuple > (2, 0):", "xdis.opcodes.*.opname"),
     ("m-c20-labels-memoised", "C20", "fire", "xdis/cross_dis.py", "def findlabels(code, opc):", "import functools\n\n\n@functools.lru_cache(maxsize=64)\ndef findlabels(code, opc):", "C18-R3:memoised-result"),
-    ("m-c02-table-cache-ignores-flavour", "C02", "fire", "xdis/op_imports.py", "    if variant is None:\n        try:\n            import platform",
-     "    if vers_str in _seen_tables:\n        return _seen_tables[vers_str]\n    _key = vers_str\n    if variant is None:\n        try:\n            import platform", ""),
+    ("m-c02-table-cache-ignores-flavour", "C02", "fire", "xdis/op_imports.py", "    return op_imports[canonic_python_version.get(vers_str, vers_str)]",
+     "    return op_imports.setdefault(\"memo:\" + version_tuple_to_str(version_info[:2]), op_imports[canonic_python_version.get(vers_str, vers_str)])", ""),
 ]
 
 
